@@ -82,11 +82,14 @@ DedupCasesF == UNION {{[op |-> "dedup", g |-> RevInputs(MkGraph(sh, Same, p, TRU
 \* "any output name": outputs called like attributes of the Node class
 TwoOutShapes == {sh \in BaseShapes : \E i \in 1..sh.n : sh.outs[i] = 2 /\ ~Terminal(sh, i)}
 AttrNames == {"payload", "name"}
-AttrCasesC == {[op |-> "copy", g |-> MkGraphO(sh, Unique, Ident, TRUE, o2)] : sh \in TwoOutShapes, o2 \in AttrNames}
-AttrCasesF == {[op |-> "fuse", cb |-> "new", g |-> MkGraphO(sh, Unique, Ident, TRUE, o2)] : sh \in TwoOutShapes, o2 \in AttrNames}
-AttrCasesR == {[op |-> "rename", fn |-> "prefix", g |-> MkGraphO(sh, Unique, Ident, TRUE, o2)] : sh \in TwoOutShapes, o2 \in AttrNames}
-AttrCasesD == {[op |-> "dedup", g |-> MkGraphO(sh, Same, [i \in 1..sh.n |-> 1], TRUE, o2)] : sh \in TwoOutShapes, o2 \in AttrNames}
-AttrCasesS == {[op |-> "split", key |-> [i \in 1..sh.n |-> i % 2], g |-> MkGraphO(sh, Unique, Ident, TRUE, o2)] : sh \in TwoOutShapes, o2 \in AttrNames}
+\* every attribute / method name of Node and of the internal sub-graph proxy of expand
+MoreAttrNames == {"inputs", "outputs", "copy", "get_output", "serialise", "parent", "leaves", "output_map", "inner_sinks"}
+AttrPairs == (TwoOutShapes \X AttrNames) \cup ({sh \in TwoOutShapes : sh.n <= 2} \X MoreAttrNames)
+AttrCasesC == {[op |-> "copy", g |-> MkGraphO(sh, Unique, Ident, TRUE, o2)] : <<sh, o2>> \in AttrPairs}
+AttrCasesF == {[op |-> "fuse", cb |-> "new", g |-> MkGraphO(sh, Unique, Ident, TRUE, o2)] : <<sh, o2>> \in AttrPairs}
+AttrCasesR == {[op |-> "rename", fn |-> "prefix", g |-> MkGraphO(sh, Unique, Ident, TRUE, o2)] : <<sh, o2>> \in AttrPairs}
+AttrCasesD == {[op |-> "dedup", g |-> MkGraphO(sh, Same, [i \in 1..sh.n |-> 1], TRUE, o2)] : <<sh, o2>> \in AttrPairs}
+AttrCasesS == {[op |-> "split", key |-> [i \in 1..sh.n |-> i % 2], g |-> MkGraphO(sh, Unique, Ident, TRUE, o2)] : <<sh, o2>> \in AttrPairs}
 KeyMaps(n) == {k \in [1..n -> (IF n <= Split3N THEN 0..2 ELSE 0..1)] : k[1] = 0}
 SplitCases  == UNION {{[op |-> "split", key |-> k, g |-> MkGraph(sh, Unique, Ident, sh.n % 2 = 0)] : k \in KeyMaps(sh.n)} : sh \in BaseShapes}
 
@@ -122,10 +125,10 @@ O2 == <<[n |-> 4, outs |-> <<1, 1, 2, 1>>, ins |-> <<<<>>, <<>>, <<Code(1, 1), C
 O3 == <<[n |-> 1, outs |-> <<1>>, ins |-> <<<<>>>>], 1>>                                                    \* x alone
 O4 == <<[n |-> 3, outs |-> <<1, 2, 1>>, ins |-> <<<<>>, <<Code(1, 1)>>, <<Code(2, 2), Code(1, 1)>>>>], 2>>   \* c reads x.b and p
 PairsOf(f) == SetToSeq({<<k, f[k]>> : k \in DOMAIN f})
-ExpCasesFor(ctx, termOut, xn, ssh, sch, allMaps, pre) ==
+ExpCasesForO(ctx, termOut, xn, ssh, sch, allMaps, pre, out2) ==
   LET sh == ctx[1]
       x == ctx[2]
-      g == MkGraph(sh, OuterNames(x, xn), Ident, termOut)
+      g == MkGraphO(sh, OuterNames(x, xn), Ident, termOut, out2)
       sub == SubGraph(ssh, sch)
       xin == {inp[1] : inp \in SetOf(g.nodes[x].inputs)}
       xout == SetOf(g.nodes[x].outputs)
@@ -145,6 +148,7 @@ ExpCasesFor(ctx, termOut, xn, ssh, sch, allMaps, pre) ==
                  \cup {[op |-> "expand", pre |-> pre, g |-> g, x |-> x, sub |-> sub, imapNone |-> FALSE, imap |-> PairsOf(im), omapNone |-> TRUE, omap |-> <<>>] : im \in imaps}
             ELSE {})
       \cup {[op |-> "expand", pre |-> pre, g |-> g, x |-> x, sub |-> sub, imapNone |-> TRUE, imap |-> <<>>, omapNone |-> FALSE, omap |-> PairsOf(om)] : om \in omaps}
+ExpCasesFor(ctx, termOut, xn, ssh, sch, allMaps, pre) == ExpCasesForO(ctx, termOut, xn, ssh, sch, allMaps, pre, "b")
 \* (A) every outer context x one sub-graph; (B) four outer contexts x every sub-graph x every map; (C) names x names
 ExpandCases ==
      UNION {ExpCasesFor(ctx, t, "n", Fork, Benign, FALSE, "") : ctx \in OuterCtx, t \in BOOLEAN}
@@ -152,6 +156,8 @@ ExpandCases ==
 \cup UNION {ExpCasesFor(ctx, TRUE, xn, ssh, sch, FALSE, "") : ctx \in {O1, O2}, xn \in XNames, ssh \in {Fork, Chain2}, sch \in Schemes}
 \* (D) the graph is first put into a namespace (join_namespaced(ns = g): every name becomes "ns.<name>"), then expanded
 \cup UNION {ExpCasesFor(ctx, TRUE, xn, Fork, sch, FALSE, "ns") : ctx \in {O1, O2}, xn \in {"n", "a", "a.a"}, sch \in Schemes}
+\* (F) the second output of the expanded node is called like an attribute of Node / of the sub-graph proxy, and is consumed
+\cup UNION {ExpCasesForO(ctx, TRUE, "n", Fork, Benign, FALSE, "", o2) : ctx \in {O2, O4}, o2 \in AttrNames \cup MoreAttrNames}
 \* (E) two levels: x is expanded (explicit maps), then the spliced leaf "<x>.<sink>" of the result is expanded in turn
 Expand2Cases ==
   UNION {UNION {{[op |-> "expand2", pre |-> "", g |-> c1.g, x |-> c1.x, sub |-> c1.sub, imapNone |-> FALSE, imap |-> c1.imap,
